@@ -149,9 +149,22 @@ def strip_comments(src: str) -> str:
     return "".join(out)
 
 
+def integrated_files() -> list[Path]:
+    """the Lean files that are part of the build: everything MD.lean imports (transitively, inside lean/) + the driver"""
+    seen, todo = set(), ["MD"]
+    while todo:
+        m = todo.pop()
+        f = LEAN / (m.replace(".", "/") + ".lean")
+        if m in seen or not f.exists():
+            continue
+        seen.add(m)
+        todo.extend(re.findall(r"^import\s+(MD\.\S+)", f.read_text(), flags=re.M))
+    return sorted(LEAN / (m.replace(".", "/") + ".lean") for m in seen) + [LEAN / "Driver.lean"]
+
+
 def lean_grep_forbidden() -> list[str]:
     hits = []
-    for f in sorted(LEAN.rglob("*.lean")):
+    for f in integrated_files():
         if ".lake" in f.parts:
             continue
         for ln, line in enumerate(strip_comments(f.read_text()).split("\n"), 1):
@@ -408,6 +421,13 @@ def run_check(P: Prop, tier: str, seed: int, replay: str | None = None) -> int:
     proof_broken = [n for n, v in audit["theorems"].items() if not v["ok"]]
     if forbidden:
         proof_broken.append("forbidden tokens: " + "; ".join(forbidden[:5]))
+    leanchecker = None
+    if tier == "thorough" and ok_build and not replay:
+        # independent re-check of the compiled modules with the toolchain's leanchecker
+        lc = subprocess.run(["lake", "env", "leanchecker", *spec["modules"]], cwd=LEAN, capture_output=True, text=True)
+        leanchecker = "ok" if lc.returncode == 0 else "FAILED: " + (lc.stdout + lc.stderr)[-300:]
+        if lc.returncode != 0:
+            proof_broken.append("leanchecker: " + leanchecker)
 
     # ---- 2. correspondence -------------------------------------------------------------
     if replay:
@@ -513,6 +533,8 @@ def run_check(P: Prop, tier: str, seed: int, replay: str | None = None) -> int:
         "exhaustive": False,
         "repo": str(REPO),
     }
+    if leanchecker is not None:
+        cov["leanchecker"] = leanchecker
     if obligations == 0:  # nothing proved yet: do not pretend (falls back to the exploration keys)
         del cov["obligations"], cov["discharged"]
     cov.update(P.extra_coverage())
